@@ -63,8 +63,11 @@ def gen(rng, tier):
         ops = []
         ver = 0
         for _ in range(1 + rng.below(5)):
-            k = rng.weighted([("r", 5), ("u", 2), ("s", 1)])
-            if k == "r":
+            k = rng.weighted([("r", 5), ("u", 2), ("s", 1), ("U", 2), ("S", 1)])
+            if k in ("U", "S"):
+                # real unix socket, one shared client: the i-th accepted connection belongs to a worker of that generation
+                ops.append("%s/%s" % (k, rng.choice(["cur", "cur+old", "old+cur", "cur+old+old", "old", "cur+cur"])))
+            elif k == "r":
                 ver += 1
                 b = rng.weighted([(1, 3), (0, 1)])
                 ops.append("r/%d/%s" % (b, gen_sched(rng, ver, T, 3)))
@@ -153,6 +156,17 @@ def judge(case, impl, model, spec):
         for o, op in zip(ops, impl.split(";")):
             if o.startswith("r/"):
                 cur += 1
+            elif o[0] in "US":
+                # connection level: no API request may be served by a worker that did not answer the check with 200 on that
+                # connection, and requests are sent iff the first worker runs the current version
+                f = op.split(":")
+                first = o.split("/")[1].split("+")[0]
+                if f[2] != "0":
+                    r["spec"] = "%s API request(s) reached a worker that had not confirmed the current version on that connection: %s for op %s" % (f[2], op, o)
+                    return r
+                if (f[3] == "1") != (first == "cur"):
+                    r["spec"] = "API requests sent iff the worker answering the check runs the current version: %s for op %s" % (op, o)
+                    return r
             else:
                 w = o.split("/")[1]
                 confirmed = (w == "cur") or (w == str(cur))
